@@ -684,7 +684,7 @@ func (ls *LState) findLocal(frame *callFrame, no int) string {
 	} else {
 		return ""
 	}
-	if top-frame.LocalBase >= no {
+	if no > 0 && top-frame.LocalBase >= no {
 		return "(*temporary)"
 	}
 	return ""
